@@ -28,25 +28,25 @@ ASSUMPTIONS = [
     "a line holding a single token longer than the width cannot fit and is exempt (as the property says)",
 ]
 ANCHORS = ["dagrt.codegen.utils:wrap_line_base"]
-MIN_NONTRIVIAL = {"quick": 10000, "thorough": 120000}
+MIN_NONTRIVIAL = {"quick": 10000, "thorough": 840000}
 REQUIRED_COUNTERS = {
     "quick": ["wrap_contract_evaluations_python", "wrap_contract_evaluations_fortran",
               "python_ast_compared", "generator_lines_python", "generator_lines_fortran",
-              "fortran_statements_executed"],
+              "fortran_statements_executed", "emitted_modules_scanned_fortran"],
     "thorough": ["wrap_contract_evaluations_python", "wrap_contract_evaluations_fortran",
                  "python_ast_compared", "generator_lines_python", "generator_lines_fortran",
-                 "fortran_statements_executed"]}
+                 "fortran_statements_executed", "emitted_modules_scanned_fortran"]}
 SHARD_TIMEOUT = {"quick": 900, "thorough": 3000}
 
 
 def plan(tier, seed):
-    per = 1500 if tier == "quick" else 16000
+    per = 1500 if tier == "quick" else 160000
     sh = [{"kind": "tokens", "seed": f"C20:{seed}:{k}", "count": per} for k in range(14)]
     for k in range(2 if tier == "quick" else 8):
-        sh.append({"kind": "generators", "seed": f"C20:{seed}:gen{k}", "nprog": 40 if tier == "quick" else 150})
-    nf = 1 if tier == "quick" else 6
+        sh.append({"kind": "generators", "seed": f"C20:{seed}:gen{k}", "nprog": 40 if tier == "quick" else 1500})
+    nf = 1 if tier == "quick" else 12
     for k in range(nf):
-        sh.append({"kind": "fortran", "seed": f"C20:{seed}:f{k}", "count": 120 if tier == "quick" else 300})
+        sh.append({"kind": "fortran", "seed": f"C20:{seed}:f{k}", "count": 120 if tier == "quick" else 1200})
     return sh
 
 
@@ -226,6 +226,50 @@ def sample_programs():
     return progs
 
 
+def check_emitted(rec, text, target, context, witness):
+    from vf.wrapmon import judge_emitted_text
+    if target != "fortran":
+        # the Python generator writes parts of the class (tables, boilerplate) without going through the
+        # wrapper; only the Fortran generator passes EVERY emitted line through wrap_line (get_code)
+        return
+    rec.count(f"emitted_modules_scanned_{target}")
+    rec.count(f"emitted_lines_scanned_{target}", text.count("\n") + 1)
+    for mech, why in judge_emitted_text(text, "&" if target == "fortran" else "\\",
+                                        "!" if target == "fortran" else "#")[:1]:
+        rec.violation(mech, f"[{target}, {context}] {why}", witness)
+
+
+def repeated_statement_programs(rng):
+    """The same long statement at several nesting depths of one phase (shallow first / deep first)."""
+    from dagrt.language import CodeBuilder, DAGCode
+    progs = []
+    for order in ("shallow-first", "deep-first"):
+        depth = rng.choice([1, 2, 3])
+        lhs = rng.choice(["<state>accumulated_value", "<p>a_persistent_quantity_with_a_long_name", "acc_tmp"])
+        nt = rng.randint(4, 6)
+        terms = [f"<state>u{k}*<state>coefficient_{k}" for k in range(nt)]
+        rhs = " + ".join(terms)
+        with CodeBuilder("primary") as cb:
+            for k in range(nt):
+                cb(f"<state>u{k}", f"<dt>*{k + 1}")
+                cb(f"<state>coefficient_{k}", f"<t> + {k}")
+            def deep(d):
+                if d == 0:
+                    cb(lhs, rhs)
+                    return
+                with cb.if_(f"<state>u{d} > {d}"):
+                    deep(d - 1)
+            if order == "shallow-first":
+                cb(lhs, rhs)
+                deep(depth)
+            else:
+                deep(depth)
+                cb(lhs, rhs)
+            cb("<state>result", lhs + " + 1")
+        progs.append((order, depth, DAGCode.from_phases_list([cb.as_execution_phase("primary")], "primary")))
+    return progs
+
+
 def run_generators(shard, rec):
     import dagrt.codegen.fortran as f
     from dagrt.codegen import PythonCodeGenerator
@@ -236,11 +280,12 @@ def run_generators(shard, rec):
     try:
         for name, dag, utm in sample_programs():
             before = rec.counters.get("wrap_contract_evaluations_python", 0)
-            PythonCodeGenerator(class_name="M")(dag)
+            check_emitted(rec, PythonCodeGenerator(class_name="M")(dag), "python", name, {"sample": name})
             rec.count("generator_lines_python",
                       rec.counters.get("wrap_contract_evaluations_python", 0) - before)
             before = rec.counters.get("wrap_contract_evaluations_fortran", 0)
-            f.CodeGenerator("m_" + name, user_type_map=utm)(dag)
+            check_emitted(rec, f.CodeGenerator("m_" + name, user_type_map=utm)(dag), "fortran", name,
+                          {"sample": name})
             rec.count("generator_lines_fortran",
                       rec.counters.get("wrap_contract_evaluations_fortran", 0) - before)
             mon.flush(rec, context="generator:" + name)
@@ -275,13 +320,23 @@ def run_generators(shard, rec):
         import random as _r
         from vf import ftn, prog
         rng = _r.Random(shard["seed"])
+        for rep in range(max(2, shard.get("nprog", 40) // 10)):
+            for order, depth, dag in repeated_statement_programs(rng):
+                wit = {"repeated_statement": order, "depth": depth, "seed": shard["seed"], "rep": rep}
+                check_emitted(rec, f.CodeGenerator("rep", user_type_map={})(dag), "fortran",
+                              f"repeated-statement:{order}", wit)
+                check_emitted(rec, PythonCodeGenerator(class_name="M")(dag), "python",
+                              f"repeated-statement:{order}", wit)
+                mon.flush(rec, context="generator:repeated-statement")
+                rec.case(["generator-repeated", order, depth, rep, shard["seed"]])
         for i in range(shard.get("nprog", 40)):
             script = prog.Gen(rng, profile="py").script()
             before = rec.counters.get("wrap_contract_evaluations_python", 0)
             try:
-                PythonCodeGenerator(class_name="M")(prog.build(script))
+                text = PythonCodeGenerator(class_name="M")(prog.build(script))
             except Exception:
                 continue
+            check_emitted(rec, text, "python", "G_prog-py", {"gprog": "py", "i": i, "seed": shard["seed"]})
             rec.count("generator_lines_python", rec.counters.get("wrap_contract_evaluations_python", 0) - before)
             mon.flush(rec, context="generator:G_prog-py")
             rec.case(["generator-gprog-py", i, shard["seed"]])
@@ -289,9 +344,10 @@ def run_generators(shard, rec):
             script = ftn.FGen(rng, memory_bias=rng.random() < 0.5, two_types=rng.random() < 0.3).script()
             before = rec.counters.get("wrap_contract_evaluations_fortran", 0)
             try:
-                ftn.generate(prog.build(script), script)
+                text = ftn.generate(prog.build(script), script).code
             except Exception:
                 continue
+            check_emitted(rec, text, "fortran", "G_prog-ftn", {"gprog": "ftn", "i": i, "seed": shard["seed"]})
             rec.count("generator_lines_fortran", rec.counters.get("wrap_contract_evaluations_fortran", 0) - before)
             mon.flush(rec, context="generator:G_prog-ftn")
             rec.case(["generator-gprog-ftn", i, shard["seed"]])
